@@ -16,7 +16,7 @@ LEVEL = 'model_checking'
 TECHNIQUE = ('explicit-state breadth-first model checking of the implementation: states are canonical disk images, transitions execute the real '
              'trash-put / trash-restore / trash-rm / trash-empty on the state rebuilt from its snapshot; a bag reference model is stepped in lock-step and '
              'trash-list is compared with it after every transition')
-LEVEL_TEXT = ('every state reachable by at most d commands (quick d=5, thorough d=6) from the empty trash, and by at most 3 (thorough 5) commands from a second initial state in which one volume holds entries in both .Trash/uid and .Trash-uid, and by at most 2 (thorough 4) from a third one whose .Trash-uid is a symbolic link and a fourth one that holds a symlink to a live directory and a name with a percent escape, over a 17-command alphabet on two volumes is generated, deduplicated by a '
+LEVEL_TEXT = ('every state reachable by at most d commands (quick d=5, thorough d=6) from the empty trash, and by at most 3 (thorough 5) commands from a second initial state in which one volume holds entries in both .Trash/uid and .Trash-uid, and by at most 2 (thorough 4) from a third one whose .Trash-uid is a symbolic link and a fourth one that holds a symlink to a live directory and a name with a percent escape, over a 17-command alphabet on two volumes (behind a third one whose .Trash is not sticky and must be skipped by every command) is generated, deduplicated by a '
               'canonical hash of the whole disk image, and in every state the output of the real trash-list must equal the bag (multiset of date+path lines) and the pairs on disk must equal the bag')
 LEVEL_NOTE = ('exhaustive to the stated depth only; canonicalisation drops directory/.trashinfo mtimes and inode numbers, which no trash-cli code path reads (grep st_mtime|st_ino is empty); '
               'trusted: R3/R4/R5 reference models')
@@ -30,7 +30,8 @@ PUTS = {'put:w/a': ('/home/u/w/a', 'file'), 'put:w/d': ('/home/u/w/d', 'tree'), 
 RESTORES = {'restore:/,0': ('/', '0'), 'restore:w,0': ('/home/u/w', '0'), 'restore:/,0-1': ('/', '0-1'), 'restore:v1,0': ('/mnt/v1', '0')}
 RMS = {'rm:a': 'a', 'rm:*': '*', 'rm:/home/u/w/*': '/home/u/w/*'}
 ACTIONS = list(PUTS) + list(RESTORES) + list(RMS) + ['empty', 'empty:1', 'empty:0', 'tick']
-MOUNTS = ['/', '/mnt/v1']
+MOUNTS = ['/', '/mnt/v0', '/mnt/v1']          # /mnt/v0 comes first and has a .Trash that is NOT sticky, with a populated $uid directory: skipped by everybody, always
+INSECURE = '/mnt/v0/.Trash/0'
 ENV = {'HOME': '/home/u'}
 
 
@@ -53,14 +54,20 @@ def _snap_of_nodes(nodes):
     return snap
 
 
+def _insecure(W):
+    W.dir('/mnt/v0/.Trash', mode=0o777)
+    scen.add_trashed(W, INSECURE, 'never', 'p/never', '2001-01-01T00:00:00', payload='file', tag='in an insecure directory')
+    return W
+
+
 def initial(tier):
-    W = scen.base_world(mounts=MOUNTS)
+    W = _insecure(scen.base_world(mounts=MOUNTS))
     W.dir('/home/u/w').dir('/mnt/v1/p')
     out = [{'nodes': W.spec()['nodes'], 'model': {'bag': [], 'day': 0}}]
     if True:
         # second initial state: the volume already has an entry in the user's .Trash-uid, and a sticky .Trash has appeared since,
         # so that new puts go to .Trash/uid and BOTH directories of the volume hold entries
-        W2 = scen.base_world(mounts=MOUNTS)
+        W2 = _insecure(scen.base_world(mounts=MOUNTS))
         W2.dir('/home/u/w').dir('/mnt/v1/p').dir('/mnt/v1/.Trash', mode=0o1777)
         scen.add_trashed(W2, '/mnt/v1/.Trash-0', 'old', 'p/old', '2024-02-20T12:00:00', payload='file', tag='pre-existing')
         nodes = W2.spec()['nodes']
@@ -69,11 +76,11 @@ def initial(tier):
                     'max_depth': 3 if tier != 'thorough' else 5})
         # third initial state: the user's $topdir/.Trash-uid is a symbolic link to a directory of the same volume
         # (trash-put trashes through it; every reader has to look there too)
-        W3 = scen.base_world(mounts=MOUNTS)
+        W3 = _insecure(scen.base_world(mounts=MOUNTS))
         W3.dir('/home/u/w').dir('/mnt/v1/p').dir('/mnt/v1/.Trash-0real', mode=0o700).link('/mnt/v1/.Trash-0', '.Trash-0real')
         out.append({'nodes': W3.spec()['nodes'], 'model': {'bag': [], 'day': 0}, 'max_depth': 2 if tier != 'thorough' else 4})
         # fourth initial state: the home trash already holds a symbolic link to a live directory and a file whose name contains a percent escape
-        W4 = scen.base_world(mounts=MOUNTS)
+        W4 = _insecure(scen.base_world(mounts=MOUNTS))
         W4.dir('/home/u/w').dir('/mnt/v1/p').dir('/home/u/live').file('/home/u/live/inner', 'alive\n')
         scen.add_trashed(W4, scen.HOME_TRASH, 'lnk', '/home/u/w/lnk', '2024-02-21T12:00:00', payload=None)
         W4.link(scen.HOME_TRASH + '/files/lnk', '/home/u/live')
@@ -112,6 +119,10 @@ def disk_bag(snap):
     out, problems = [], []
     linked = {os.path.normpath(os.path.join(os.path.dirname(p), v[1])): p for p, v in snap.items() if v[0] == 'l' and os.path.basename(p) == '.Trash-0'}
     for td, (infos, pays) in scen.trash_state(snap).items():
+        if td == INSECURE:
+            if sorted(infos) != ['never.trashinfo'] or sorted(pays) != ['never']:
+                problems.append('insecure-directory-touched:%s' % td)
+            continue
         for nm in pays:
             if nm + '.trashinfo' not in infos:
                 problems.append('payload-without-info:%s/files/%s' % (td, nm))
